@@ -208,6 +208,17 @@ CLAIMED = {
              "choice per relative site against the model. One defect repaired (fix: same RELR/RELA rule when sizing and when writing).",
         technique="Coq proof (invariant over the emission fold; loader lemmas for RELA and address-only RELR tables) + an independent loader run on real outputs",
         design_ref="DESIGN.md §3 C09"),
+    "C23": dict(
+        text="S2: Gallina models of the three functions that must agree for one resolution — allocate_resolution (bytes reserved), create_resolution (GOT/PLT slots addressed) and "
+             "process_resolution with its TLS helpers (entries consumed, or an error). Theorem: for every combination of value flags layout can produce (the `consistent` invariants, stated "
+             "explicitly), every output kind, with and without pack-relative-relocs, the writer consumes exactly what layout reserved and reports no error — a finite domain (98k cases) "
+             "decided by vm_compute and lifted to a universal statement. With C09's theorem that the RELR/RELA choice per relocation site is the same at layout and write time. The other "
+             "size pairs (hash tables, eh_frame_hdr, symbol tables) are covered by the link matrix only.",
+        note="Trusted: the hand transcription; the layout side is tied exhaustively to the compiled allocate_resolution through a guarded hook; the writer side and the invariants through a "
+             "matrix of real links (TLS access models x symbol kinds x function reference kinds x output kinds x options that change generated sections) with GNU ld as the validity oracle. "
+             "Two defects repaired (RELR/RELA parity; TLS GOT entry of an undefined weak hidden symbol in a shared object — found by the model's sweep, then reproduced).",
+        technique="Coq proof by reflection over a finite domain + exhaustive correspondence with allocate_resolution + link matrix against GNU ld",
+        design_ref="DESIGN.md §3 C23"),
     "C37": dict(
         text="S1 on top of C03: DT_NEEDED = the shared libraries in the verified loaded set, in command-line order. Theorems: listed iff loaded shared library; every --no-as-needed library listed; "
              "an --as-needed library listed only if some loaded file non-weakly references a name whose first definition it is; strictly increasing command-line positions (each at most once).",
